@@ -91,11 +91,11 @@ inductive Resp where
 
 /-- what a reader receives for a record: an empty repeated field is indistinguishable from no
     value; timestamps are only emitted when `> 0` -/
-def wire (r : Rec) : Rec :=
+def wire (ar : Arith) (r : Rec) : Rec :=
   { val := match r.val with | .u32s [] => .none | v => v,
     m := { r.m with ca := if r.m.ca > 0 then r.m.ca else 0,
                     ua := if r.m.ua > 0 then r.m.ua else 0,
-                    exp := if r.m.exp > 0 then r.m.exp else 0 } }
+                    exp := if ar.expNe0 || decide (r.m.exp > 0) then r.m.exp else 0 } }
 
 /-- request value as the handler sees it after protobuf decoding -/
 def normVal : Val → Val
@@ -256,14 +256,14 @@ def foldPairs (f : Store → Key × List Nat → Store × Bool) : Store → List
     let (st2, es) := foldPairs f st1 rest
     (st2, e || es)
 
-def shiftAll : Store → List Key → Store × List (Key × Rec)
+def shiftAll (ar : Arith) : Store → List Key → Store × List (Key × Rec)
   | st, [] => (st, [])
   | st, k :: rest =>
     match AL.find k st with
-    | none => shiftAll st rest
+    | none => shiftAll ar st rest
     | some r =>
-      let (st', out) := shiftAll (AL.erase k st) rest
-      (st', (k, wire r) :: out)
+      let (st', out) := shiftAll ar (AL.erase k st) rest
+      (st', (k, wire ar r) :: out)
 
 def delAll : Store → List Key → Store × List St
   | st, [] => (st, [])
@@ -285,16 +285,16 @@ def step (ar : Arith) (now : Int) (st : Store) : Req → Store × Resp
       (st', .sts ss)
   | .get keys =>
     if st.isEmpty then (st, .err "FailedPrecondition")
-    else (st, .recs (keys.map fun k => (AL.find k st).map wire))
+    else (st, .recs (keys.map fun k => (AL.find k st).map (wire ar)))
   | .getAll =>
-    if st.isEmpty then (st, .err "FailedPrecondition") else (st, .kvs (AL.mapV wire st))
+    if st.isEmpty then (st, .err "FailedPrecondition") else (st, .kvs (AL.mapV (wire ar) st))
   | .getByKeys keys =>
     if st.isEmpty then (st, .err "FailedPrecondition")
-    else (st, .kvs (keys.filterMap fun k => (AL.find k st).map fun r => (k, wire r)))
+    else (st, .kvs (keys.filterMap fun k => (AL.find k st).map fun r => (k, wire ar r)))
   | .shift keys =>
     if st.isEmpty then (st, .err "FailedPrecondition")
     else
-      let (st', out) := shiftAll st keys
+      let (st', out) := shiftAll ar st keys
       (st', .kvs out)
   | .del keys =>
     if st.isEmpty then (st, .delErr)
@@ -572,7 +572,8 @@ def settleAfterDelete (s : State) (i : Inst) : State :=
 def settleAfterTouch (cfg : Cfg) (s : State) (i : Inst) : State × List Tag :=
   if i.recs.isEmpty && s.file.isNone then
     if cfg.noEmptyLive && i.inflight.isEmpty then ({ s with live := none }, [])
-    else (withLive s i, [Tag.emptyLive])
+    -- with the readers repaired, only a parked in-flight treasure keeps an empty swamp alive
+    else (withLive s i, [if cfg.noEmptyLive then Tag.incFailTrace else Tag.emptyLive])
   else (withLive s i, [])
 
 /-- one key of `Set` (gateway.go) -/
@@ -592,15 +593,15 @@ def setLoop (cfg : Cfg) (create over : Bool) : Inst → List Item → Inst × Li
     let (i', ss, tgs) := setLoop cfg create over i1 rest
     (i', st :: ss, tg ++ tgs)
 
-def shiftLoop : Inst → List Key → Inst × List (Key × Rec)
+def shiftLoop (ar : Arith) : Inst → List Key → Inst × List (Key × Rec)
   | i, [] => (i, [])
   | i, k :: rest =>
     match AL.find k i.recs with
-    | none => shiftLoop i rest
+    | none => shiftLoop ar i rest
     | some t =>
-      let (i', out) := shiftLoop (deleteRec i k) rest
+      let (i', out) := shiftLoop ar (deleteRec i k) rest
       -- the reply carries `treasureObj.Clone(...)`
-      (i', (k, wire { t with c := t.c.clone }.abs) :: out)
+      (i', (k, wire ar { t with c := t.c.clone }.abs) :: out)
 
 def delLoop : Inst → List Key → Inst × List St
   | i, [] => (i, [])
@@ -776,18 +777,18 @@ def stepCore (cfg : Cfg) (ar : Arith) (now : Int) (s : State) (req : Req) : Out 
       ⟨st.1, .sts r.2.1, r.2.2 ++ st.2⟩
   | .get keys =>
     if !exists_ s then ⟨s, .err "FailedPrecondition", []⟩
-    else ⟨withLive s (summon s), .recs (keys.map fun k => (AL.find k (summon s).recs).map fun t => wire t.abs), []⟩
+    else ⟨withLive s (summon s), .recs (keys.map fun k => (AL.find k (summon s).recs).map fun t => wire ar t.abs), []⟩
   | .getAll =>
     if !exists_ s then ⟨s, .err "FailedPrecondition", []⟩
-    else ⟨withLive s (summon s), .kvs (AL.mapV (fun t => wire t.abs) (summon s).recs), []⟩
+    else ⟨withLive s (summon s), .kvs (AL.mapV (fun t => wire ar t.abs) (summon s).recs), []⟩
   | .getByKeys keys =>
     if !exists_ s then ⟨s, .err "FailedPrecondition", []⟩
     else ⟨withLive s (summon s),
-          .kvs (keys.filterMap fun k => (AL.find k (summon s).recs).map fun t => (k, wire t.abs)), []⟩
+          .kvs (keys.filterMap fun k => (AL.find k (summon s).recs).map fun t => (k, wire ar t.abs)), []⟩
   | .shift keys =>
     if !exists_ s then ⟨s, .err "FailedPrecondition", []⟩
     else
-      let r := shiftLoop (summon s) keys
+      let r := shiftLoop ar (summon s) keys
       ⟨settleAfterDelete s r.1, .kvs r.2, []⟩
   | .del keys =>
     if !exists_ s then ⟨s, .delErr, []⟩
@@ -862,7 +863,7 @@ def step (cfg : Cfg) (ar : Arith) (now : Int) (s : State) (req : Req) : Out :=
   if s.dead then ⟨s, .skip, []⟩
   else
     let o := stepCore cfg ar now s req
-    { o with tags := o.tags ++ (if ghost s then [Tag.emptyLive] else []) }
+    { o with tags := o.tags ++ (if ghost s then [if cfg.noEmptyLive then Tag.incFailTrace else Tag.emptyLive] else []) }
 
 end Model
 
